@@ -499,6 +499,64 @@ def load_corpus():
                 cases.append(case_from_payload(json.load(open(os.path.join(d, f)))))
     return cases
 
+# ------------------------------------------------------------------------------------------------
+# tables of more than 2^24 coefficients (where a count kept in single precision, a 32-bit byte offset of a float array ... would break):
+# too large to dump as text, so the harness fills the array with a pattern of the flat index, permutes, and verifies every coefficient
+# itself against an independent index computation — the statement of C15_coeff_relocated, which determines the array
+# (C15_coeff_relocation_determines_the_array) — then applies the inverse and compares with the original (C15_inverse).
+GIANT = {"quick": [((4097, 4099), (1, 0), "m")],
+         "thorough": [((4097, 4099), (1, 0), "m"), ((4099, 4097), (1, 0), "c"), ((9, 2001, 2002), (2, 0, 1), "m"), ((2002, 9, 2001), (1, 2, 0), "c"),
+                      ((257, 255, 257), (2, 1, 0), "m"), ((65, 63, 65, 64), (3, 1, 0, 2), "m")]}
+def check_giant(tier, out, stats):
+    wd = build_dir("cases-C15-giant-%d" % os.getpid())
+    exes = {f: build_harness("C15_" + f, ["C15_harness.cpp"], flavour=("faithful" if f == "f" else "checked"), tag="C15_" + f) for f in ("f", "c")}
+    n = 0
+    for ci, (shape, perm, api) in enumerate(GIANT[tier]):
+        nd = len(shape)
+        orders = [(ci + d) % 3 for d in range(nd)]
+        lines = ["T g%d %d 1" % (ci, nd)]
+        for d, (a, o) in enumerate(zip(shape, orders)):
+            kn = [float(k) * (d + 1) for k in range(a + o + 1)]
+            lines.append("D %d %d %s %s %s %s %s" % (o, len(kn), hexd(7000.0 * (d + 1)), hexd(100.0 + d), hexd(1000.0 + d), hexd(3.25 * (d + 1)), " ".join(hexd(x) for x in kn)))
+        lines.append("V g%d %s %s" % (ci, api, pstr(list(perm))))
+        f = os.path.join(wd, "g%d.cases" % ci)
+        open(f, "w").write("\n".join(lines) + "\n")
+        total = 1
+        for a in shape:
+            total *= a
+        for fl, exe in exes.items():
+            payload = {"giant": {"shape": list(shape), "orders": orders, "perm": list(perm), "api": api, "coefficients": total, "flavour": fl}, "case_lines_head": [l[:200] for l in lines]}
+            try:
+                p = subprocess.run([exe, f], stdout=subprocess.PIPE, stderr=subprocess.PIPE, text=True, timeout=1200)
+            except subprocess.TimeoutExpired:
+                out.violation("C15:crash:hang", "permuting a table of %d coefficients (shape %s) did not finish" % (total, list(shape)), payload); continue
+            n += 1
+            rec = parse_lines(p.stdout).get("g%d" % ci)
+            if p.returncode != 0 or rec is None:
+                import re as _re
+                m = _re.search(r"SUMMARY: \w+: ([\w-]+) (\S+)", p.stderr)
+                out.violation("C15:crash:" + ((m.group(1) + "@" + os.path.basename(m.group(2))) if m else "giant"),
+                              "permuting a table of %d coefficients (shape %s, permutation %s) crashed: %s" % (total, list(shape), list(perm), p.stderr.strip().split("\n")[-1][:200] if p.stderr.strip() else "exit %d" % p.returncode),
+                              dict(payload, crash=p.stderr[-3000:]))
+                continue
+            apiname = "member" if api == "m" else "c"
+            want_nax = [shape[j] for j in perm]
+            want = {"naxes": ",".join(map(str, want_nax)), "strides": ",".join(map(str, row_major(want_nax))),
+                    "order": ",".join(str(orders[j]) for j in perm), "nknots": ",".join(str(shape[j] + orders[j] + 1) for j in perm)}
+            if rec.get("st") not in ("ok", "rc0"):
+                out.violation("C15:%s:rejects-permutation" % apiname, "permutation %s of a table of %d coefficients rejected with %s" % (list(perm), total, rec.get("st")), payload); continue
+            for k, v in want.items():
+                if rec.get(k) != v:
+                    out.violation("C15:%s:attr-%s" % (apiname, k), "table of %d coefficients: %s is %s, expected %s (permutation %s)" % (total, k, rec.get(k), v, list(perm)), payload)
+            if rec.get("bad") != "0":
+                out.violation("C15:%s:coeff-relocation" % apiname, "table of %d coefficients (shape %s, permutation %s): %s coefficients are not at their permuted position, first at flat index %s" % (
+                    total, list(shape), list(perm), rec.get("bad"), rec.get("first")), payload)
+            elif rec.get("inv") != "1":
+                out.violation("C15:%s:identity-not-restored" % apiname, "table of %d coefficients: permutation followed by its inverse does not restore the table" % total, payload)
+    shutil.rmtree(wd, ignore_errors=True)
+    stats["giant_table_runs"] = n
+    return n
+
 RULE = ("tables of 1..6 dims with pairwise different orders, axis lengths, knot vectors (+padding), extents, periods (present in ~75% of tables) and distinct "
         "coefficient bit patterns; every permutation of <=4 (quick) / <=5 (thorough) dims, sampled above; per permutation: member function, "
         "permutation followed by its inverse, C wrapper (every third), composition with a second permutation, evaluation at permuted points; per table "
@@ -536,6 +594,7 @@ def run(info, out):
     cases = gen_cases(rng, tier)
     recs, crashes = execute(cases, "main", flavours)
     ndiff = analyse(recs, crashes, out, stats)
+    check_giant(tier, out, stats)
     searched = 0
     if (ndiff or not info["proof_ok"]) and not [v for v in out.violations if v[0] not in open_signatures("C15")]:
         cases2 = gen_cases(Rng(seed + 7919).fork("C15-search"), tier, scale=10 if tier == "quick" else 3)
@@ -576,5 +635,5 @@ def run(info, out):
                         "impl": {k: d.get(k, "")[:80] for k in ("st", "eq", "order", "naxes", "strides", "per")}})
     return {"evaluations": len(recs) * len(flavours) + searched + ncorpus, "distinct_nontrivial": len(distinct), "rule": RULE, "samples": samples,
             "traces_validated_against_impl": stats.get("traces", 0), "compared_values": stats.get("compared_values", 0),
-            "model_vs_impl_disagreeing_ops": ndiff, "large_table_ops_judged_by_theorem_statement": stats.get("large_table_ops_judged_by_theorem_statement", 0), "input_distribution": dist, "corpus_cases": ncorpus, "search_volume_after_break": searched,
+            "model_vs_impl_disagreeing_ops": ndiff, "giant_table_runs(>2^24 coefficients, verified in the harness)": stats.get("giant_table_runs", 0), "large_table_ops_judged_by_theorem_statement": stats.get("large_table_ops_judged_by_theorem_statement", 0), "input_distribution": dist, "corpus_cases": ncorpus, "search_volume_after_break": searched,
             "flavours": ["faithful -O3", "checked ASan+UBSan"]}
